@@ -223,6 +223,47 @@ type Frame struct {
 	AssumePath map[string]bool
 }
 
+// Inside returns f for evaluating the body of the innermost callee of chain
+// (call sites from the frame's own function downwards): paths are read in the
+// frame's terms.
+func (f Frame) Inside(chain []*ssa.Call) Frame {
+	if len(chain) == 0 {
+		return f
+	}
+	f.In = &chain[len(chain)-1].Call
+	f.outer = append([]*ssa.Call(nil), chain...)
+	return f
+}
+
+// OccReachSet: the subject values under which the instruction at o (possibly inside
+// private helpers of root) is reached: the call sites must be reached in their
+// functions and the instruction in its own.
+func (f Frame) OccReachSet(root *ssa.Function, o Occ) (Set, int, bool) {
+	s, n, ok := f.ReachSet(root, o.Block(), nil, nil)
+	if !ok {
+		return s, n, false
+	}
+	for i := range o.Chain {
+		callee := StaticCallee(&o.Chain[i].Call)
+		if callee == nil {
+			return s, n, false
+		}
+		var at *ssa.BasicBlock
+		if i+1 < len(o.Chain) {
+			at = o.Chain[i+1].Block()
+		} else {
+			at = o.In.Block()
+		}
+		si, ni, oki := f.Inside(o.Chain[:i+1]).ReachSet(callee, at, nil, nil)
+		n += ni
+		if !oki {
+			return s, n, false
+		}
+		s = s.Intersect(si)
+	}
+	return s, n, true
+}
+
 // AssumePresent returns f restricted to executions in which the pointer /
 // slice / map with access path ap is non-nil.
 func (f Frame) AssumePresent(ap string) Frame {
